@@ -399,6 +399,7 @@ def _check_registry_entries(ctx, entries):
                            f"model says {e['qname']}:{arg} {WHY[why]} on {call}, the real binding shows: {seen}")
     # the theorem is stated modulo the entries named by known findings: an excepted entry that binds is stale bookkeeping, not a failure
     failing_keys = {(entries[i]["qname"], entries[i]["complex"]) for i in failing}
+    _STATE["failing_keys"] = failing_keys
     stale = [k for k in _STATE.get("known_exceptions", []) if k not in failing_keys]
     ctx.cover(registry_entries=len(entries), entries_failing_binds_ok=len(failing), failing_arguments=len(diag),
               failing_confirmed_on_real_code=n_confirmed, excepted_entries=len(_STATE.get("known_exceptions", [])),
@@ -412,6 +413,46 @@ def _check_registry_entries(ctx, entries):
                       tuple(sorted({p["kind"] for p in e["params"]}))))
         else:
             ctx.case(("entry", e["status"]))
+
+
+def _check_variants(ctx, entries):
+    """Which of the two pinned variants (Registry/BindingSnapshots.v: signature as first read / as repaired) each
+    defective signature family of the checked tree is in.  The verdict itself comes from the regenerated registry
+    (entry_ok, evaluated above); here the live entry is compared with both snapshots, and the consequences of
+    C16_repairs_sound are cross-checked: as-read => the entry fails and was reported, repaired => it binds."""
+    body = (
+        "Open Scope string_scope.\n"
+        "Definition vcode (v : variant) : nat := match v with VAsRead => 0 | VRepaired => 1 | VOther => 2 | VAbsent => 3 end.\n"
+        "Eval vm_compute in (map (fun fam => match variant_of all fam with (v, same, ok) => "
+        "(fam_name fam, (if fam_complex fam then 1 else 0), vcode v, (if same then 1 else 0), (if ok then 1 else 0)) end) families).")
+    ok, vals, raw = ctx.coq_eval(["OV.Registry.Binding", "OV.Registry.BindingSnapshots", "OV.Gen.TorchRegistry"], body)
+    if not ok or len(vals) != 1:
+        ctx.tie_broken("correspondence", "variants:model-evaluation", raw[-1200:])
+        return
+    import ast
+    rows = ast.literal_eval(vals[0].replace(";", ","))
+    names = ["as-read", "repaired", "other", "absent"]
+    failing = _STATE.get("failing_keys", set())
+    live = {(e["qname"], e["complex"]) for e in entries}
+    seen, bad = {}, []
+    for (q, cx, v, same, eok) in rows:
+        cx, same, eok = bool(cx), bool(same), bool(eok)
+        tag = f"{q}{'|complex' if cx else ''}"
+        seen[tag] = names[v] + ("" if same or v == 3 else " (installed PyTorch's schema differs from the snapshot's)")
+        ctx.case(("variant", q, cx, names[v], same, eok))
+        if (v == 3) != ((q, cx) not in live):
+            bad.append(f"{tag}: Coq sees the entry as {names[v]}, the live registry {'has' if (q, cx) in live else 'does not have'} it")
+        if eok != ((q, cx) not in failing) and v != 3:
+            bad.append(f"{tag}: entry_ok={eok} in the variant probe but the registry pass {'reported' if (q, cx) in failing else 'did not report'} it")
+        if same and v == 0 and eok:
+            bad.append(f"{tag}: the live entry equals the as-read snapshot (refuted by C16_repairs_sound) yet binds_ok holds")
+        if same and v == 1 and not eok:
+            bad.append(f"{tag}: the live entry equals the repaired snapshot (binds by C16_repairs_sound) yet binds_ok fails")
+    for d in bad:
+        ctx.tie_broken("correspondence", "variants", d)
+    ctx.obligation("variant probe: each pinned family's live entry is classified (as-read / repaired / other) consistently with entry_ok "
+                   "and C16_repairs_sound", not bad, f"{len(rows)} families, {len(bad)} inconsistencies")
+    ctx.cover(family_variants=seen)
 
 
 def _check_bind_correspondence(ctx, entries):
@@ -808,6 +849,7 @@ def run(ctx):
     entries, counts = _load()
     ok = ctx.check_props()
     _check_registry_entries(ctx, entries)
+    _check_variants(ctx, entries)
     _check_live_registry_shape(ctx, entries, counts)
     _check_bind_correspondence(ctx, entries)
     _check_accept_table(ctx)
